@@ -197,6 +197,18 @@ m("NK3", "X07,C15,C12", NICF, "    nu_com = nu_1 + nu_2\n", "    nu_com = nu_1 +
   note="degrees of freedom grow with half of the kernel mass")
 
 
+IET = "skactiveml/pool/multiannotator/_interval_estimation_threshold.py"
+m("IE1", "X08,C07,C09", IET, "y_mv[is_lbld[:, a_idx]], y[is_lbld[:, a_idx], a_idx]", "y_mv[is_lbld[:, a_idx]], y[is_lbld[:, a_idx], 0]", occ=1,
+  tests="skactiveml/pool/multiannotator/tests/test_interval_estimation_threshold.py",
+  note="every annotator's agreement with the vote is computed from the first annotator's labels")
+m("IE2", "X08,C07,C09", IET, "is_correct = np.concatenate((is_correct, [0, 1]))", "is_correct = np.concatenate((is_correct, [1, 1]))", occ=1,
+  tests="skactiveml/pool/multiannotator/tests/test_interval_estimation_threshold.py",
+  note="both pseudo observations count as agreements")
+m("IE3", "X08,C07,C09", IET, '        if self.mode == "lower":\n            mode = 0', '        if self.mode == "lower":\n            mode = 2', occ=1,
+  tests="skactiveml/pool/multiannotator/tests/test_interval_estimation_threshold.py",
+  note="mode='lower' returns the upper bound")
+
+
 def load_extra():
     p = os.path.join(os.path.dirname(__file__), "mutants_extra.json")
     if os.path.exists(p):
